@@ -18,7 +18,8 @@ Inductive tkind :=
 | KPunct (p : N)                   (* Punctuation(p) for every variant but Quote: the variant *)
 | KQuote (twin : option nat)       (* Punctuation(Quote(Quote { twin_loc })): an ABSOLUTE token index *)
 | KDecade
-| KNumber (value : N) (suffix : option N)   (* Number { value: OrderedFloat<f64>, suffix: Option<NumberSuffix> } *)
+| KNumber (value : N) (suffix : option N) (radix : N) (precision : nat)
+                                   (* Number { value: OrderedFloat<f64>, suffix: Option<NumberSuffix>, radix: u32, precision: usize } *)
 | KSpace (n : nat)
 | KNewline (n : nat)
 | KEmail | KUrl | KHostname | KUnlintable | KParagraphBreak | KRegexish.
@@ -101,7 +102,7 @@ Definition tkind_eqb (a b : tkind) : bool :=
   | KPunct p, KPunct p' => N.eqb p p'
   | KQuote t, KQuote t' => opt_eqb Nat.eqb t t'
   | KDecade, KDecade => true
-  | KNumber v s, KNumber v' s' => N.eqb v v' && opt_eqb N.eqb s s'
+  | KNumber v s r p, KNumber v' s' r' p' => N.eqb v v' && opt_eqb N.eqb s s' && N.eqb r r' && Nat.eqb p p'
   | KSpace n, KSpace n' => Nat.eqb n n'
   | KNewline n, KNewline n' => Nat.eqb n n'
   | KEmail, KEmail => true
